@@ -200,6 +200,11 @@ def fg_cases() -> list[dict[str, Any]]:
                 if corpus.usable(c) and len(c["steps"]) >= 2:
                     c = dict(c, follow="follow-imports" in fn)
                     out.append(c)
+        # hand-written cases (chains of modules changed at once, re-export-only edits); appended, so the
+        # repository's cases keep their positions
+        for c in corpus.load_file(os.path.join(os.path.dirname(os.path.abspath(__file__)), "..", "sim", "synthetic-follow-imports.test")):
+            if corpus.usable(c) and len(c["steps"]) >= 2:
+                out.append(dict(c, follow=True))
         _fg_cases = out
     return _fg_cases
 
@@ -418,6 +423,13 @@ def run(tier: str) -> int:
     only = os.environ.get("VERIF_C03_FAMILY", "corpus")
     if only != "all":
         items = [it for it in items if it[0] == only]
+    # the hand-written cases are few: every tier runs all their members
+    have = {it[1] for it in items if it[0] == "corpus"}
+    synth = [k for k, (ci, _, _) in enumerate(members()) if fg_cases()[ci]["file"].startswith("synthetic")]
+    items += [("corpus", k, tier) for k in synth if k not in have]
+    sub = os.environ.get("VERIF_C03_CASE")
+    if sub:
+        items = [it for it in items if it[0] == "corpus" and sub in fg_cases()[members()[it[1]][0]]["file"] + "::" + fg_cases()[members()[it[1]][0]]["name"]]
     known = kit.load_known_findings(PROP)
     results, skipped = kit.run_pool(task, items, budget_s=900 if tier == "quick" else 4 * 3600)
     results.sort(key=lambda r: (r["family"], r["k"]))
